@@ -32,6 +32,9 @@ fn main() {
     let out = arg(&args, "--out").unwrap_or_else(|| "trace.ndjson".to_string());
     trace::silence_panics();
     trace::journal_open(&format!("{out}.journal"));
+    if args[1] == "e2e" {
+        trace::mech_open(&format!("{out}.mech"));
+    }
     match args[1].as_str() {
         "dec" => {
             let mut t = trace::Tracer::create(&out);
